@@ -596,8 +596,310 @@ def translate_study(repo):
     return HEADER.format(path="toasty/study.py and toasty/pyramid.py (next_highest_power_of_2)") + np2 + "\n" + body
 
 
+# ---------------------------------------------------------------------------------------------
+# toasty/pyramid.py: tile naming of class PyramidIO (strings)
+
+PATH_METHODS = ["__init__", "tile_path", "_tile_path_LsYsYX", "_tile_path_LXY", "get_path_scheme"]
+
+
+class PathTranslator:
+    """Tile naming of class PyramidIO: __init__ (scheme dispatch), tile_path, the two _tile_path_*
+    methods and get_path_scheme.  Strings are Coq strings; `str(e)` of an integer is src_str;
+    `"..{}..".format(a, ...)` is the concatenation of the literal's pieces with the arguments in
+    order; `os.path.join(a, b, ...)` is src_join folded from the left (POSIX, a non-empty and not
+    ending in "/", b relative); `x or y` on an optional string is src_or; a bound method stored in
+    a field (`self._tile_path = self._tile_path_LXY`) is a constructor of the enumeration
+    src_method and calling the field dispatches on it; a call of os.makedirs (alone, or under
+    `if makedirs:`) is an effect with no result and is dropped; the directory scan under
+    `if default_format is None:` is the oracle src_guess_format (a Section variable), with the
+    block required to assign nothing but default_format.  An if/elif/else whose branches assign
+    and fall through is translated by continuing into the rest of the body in each branch.
+    Every function returns an option; raise is None.  Anything else fails (fail closed)."""
+
+    def __init__(self, source):
+        self.tree = ast.parse(source)
+        cls = [n for n in self.tree.body if isinstance(n, ast.ClassDef) and n.name == "PyramidIO"]
+        if len(cls) != 1:
+            raise Unsupported("class PyramidIO not found")
+        self.methods = {n.name: n for n in cls[0].body if isinstance(n, ast.FunctionDef)}
+        missing = [m for m in PATH_METHODS if m not in self.methods]
+        if missing:
+            raise Unsupported(f"methods not found in class PyramidIO: {missing}")
+        self.counter = 0
+        init = self.methods["__init__"]
+        # fields and their kinds, in order of first assignment in __init__
+        self.fields, self.kinds = [], {}
+        for n in ast.walk(init):
+            if isinstance(n, ast.Assign) and len(n.targets) == 1 and isinstance(n.targets[0], ast.Attribute) \
+                    and isinstance(n.targets[0].value, ast.Name) and n.targets[0].value.id == "self":
+                f = n.targets[0].attr
+                k = "method" if (isinstance(n.value, ast.Attribute) and isinstance(n.value.value, ast.Name)
+                                 and n.value.value.id == "self") else "str"
+                if f not in self.kinds:
+                    self.kinds[f] = k
+                elif self.kinds[f] != k:
+                    raise Unsupported(f"field {f} holds values of different kinds")
+        order = []
+        for n in ast.walk(init):
+            pass
+        # source order of first assignment
+        class V(ast.NodeVisitor):
+            def visit_Assign(v, n):
+                t = n.targets[0]
+                if isinstance(t, ast.Attribute) and isinstance(t.value, ast.Name) and t.value.id == "self" and t.attr not in order:
+                    order.append(t.attr)
+        V().visit(init)
+        self.fields = order
+        self.method_tags = sorted({n.value.attr for n in ast.walk(init) if isinstance(n, ast.Assign)
+                                   and isinstance(n.value, ast.Attribute) and isinstance(n.value.value, ast.Name)
+                                   and n.value.value.id == "self"})
+        for t in self.method_tags:
+            if t not in self.methods:
+                raise Unsupported(f"field holds a method that does not exist: {t}")
+
+    def fail(self, node, why):
+        raise Unsupported(f"line {getattr(node, 'lineno', '?')}: {why}: {ast.dump(node)[:120]}")
+
+    def fresh(self, base):
+        self.counter += 1
+        return f"{base}_{self.counter}"
+
+    def fld(self, f):
+        return "pio" + f if f.startswith("_") else "pio_" + f
+
+    @staticmethod
+    def lit(sv):
+        return '"' + sv.replace('"', '""') + '"'
+
+    # -- expressions: returns (term, kind) with kind in str | ostr | int | pos | bool
+    def expr(self, e, env):
+        if isinstance(e, ast.Constant) and isinstance(e.value, str):
+            return self.lit(e.value), "str"
+        if isinstance(e, ast.Name):
+            if e.id not in env:
+                self.fail(e, "unknown name")
+            return env[e.id]
+        if isinstance(e, ast.Attribute) and isinstance(e.value, ast.Name):
+            o = e.value.id
+            if o == "self" and e.attr in self.kinds:
+                if self.in_init:
+                    if e.attr not in self.init_fields:
+                        self.fail(e, "field read before it is set")
+                    return self.init_fields[e.attr], self.kinds[e.attr]
+                return f"({self.fld(e.attr)} self)", self.kinds[e.attr]
+            if o in env and env[o][1] == "pos" and e.attr in POS_ATTRS:
+                return f"({POS_ATTRS[e.attr]} {env[o][0]})", "int"
+        if isinstance(e, ast.Call) and isinstance(e.func, ast.Name) and e.func.id == "str" and len(e.args) == 1 and not e.keywords:
+            t, k = self.expr(e.args[0], env)
+            if k != "int":
+                self.fail(e, "str() of something that is not an integer")
+            return f"(src_str {t})", "str"
+        if isinstance(e, ast.Call) and isinstance(e.func, ast.Attribute) and e.func.attr == "format" \
+                and isinstance(e.func.value, ast.Constant) and isinstance(e.func.value.value, str) and not e.keywords:
+            pieces = e.func.value.value.split("{}")
+            if "{" in "".join(pieces) or "}" in "".join(pieces) or len(pieces) != len(e.args) + 1:
+                self.fail(e, "format string outside the subset (only positional {} fields)")
+            parts = []
+            for i, a in enumerate(e.args):
+                if pieces[i]:
+                    parts.append(self.lit(pieces[i]))
+                t, k = self.expr(a, env)
+                if k != "str":
+                    self.fail(a, "format argument that is not a string")
+                parts.append(t)
+            if pieces[-1]:
+                parts.append(self.lit(pieces[-1]))
+            return "(" + " ++ ".join(parts) + ")", "str"
+        if isinstance(e, ast.Call) and isinstance(e.func, ast.Attribute) and e.func.attr == "join" \
+                and isinstance(e.func.value, ast.Attribute) and e.func.value.attr == "path" \
+                and isinstance(e.func.value.value, ast.Name) and e.func.value.value.id == "os" and len(e.args) >= 2 and not e.keywords:
+            ts = []
+            for a in e.args:
+                t, k = self.expr(a, env)
+                if k != "str":
+                    self.fail(a, "os.path.join argument that is not a string")
+                ts.append(t)
+            acc = ts[0]
+            for t in ts[1:]:
+                acc = f"(src_join {acc} {t})"
+            return acc, "str"
+        if isinstance(e, ast.BoolOp) and isinstance(e.op, ast.Or) and len(e.values) == 2:
+            (a, ka), (b, kb) = self.expr(e.values[0], env), self.expr(e.values[1], env)
+            if ka == "ostr" and kb == "str":
+                return f"(src_or {a} {b})", "str"
+        if isinstance(e, ast.Compare) and len(e.ops) == 1 and isinstance(e.ops[0], ast.Eq):
+            (a, ka), (b, kb) = self.expr(e.left, env), self.expr(e.comparators[0], env)
+            if ka == kb == "str":
+                return f"(String.eqb {a} {b})", "bool"
+        self.fail(e, "expression outside the subset")
+
+    def is_makedirs(self, s):
+        def call(x):
+            return isinstance(x, ast.Expr) and isinstance(x.value, ast.Call) and isinstance(x.value.func, ast.Attribute) \
+                and x.value.func.attr == "makedirs" and isinstance(x.value.func.value, ast.Name) and x.value.func.value.id == "os"
+        if call(s):
+            return True
+        return isinstance(s, ast.If) and not s.orelse and isinstance(s.test, ast.Name) and s.test.id == "makedirs" \
+            and all(call(b) for b in s.body)
+
+    # -- statements
+    def block(self, stmts, env):
+        if not stmts:
+            if self.in_init:
+                missing = [f for f in self.fields if f not in self.init_fields]
+                if missing:
+                    self.fail(self.node, f"__init__ leaves fields unset on some path: {missing}")
+                return "Some (mkPIO " + " ".join(self.init_fields[f] for f in self.fields) + ")"
+            self.fail(self.node, "function may fall off its end")
+        s, rest = stmts[0], stmts[1:]
+        if isinstance(s, ast.Expr) and isinstance(s.value, ast.Constant) and isinstance(s.value.value, str):
+            return self.block(rest, env)
+        if self.is_makedirs(s):
+            return self.block(rest, env)
+        if isinstance(s, ast.Raise):
+            return "None"
+        if isinstance(s, ast.Return) and s.value is not None:
+            v = s.value
+            # dispatch through a method-valued field
+            if isinstance(v, ast.Call) and isinstance(v.func, ast.Attribute) and isinstance(v.func.value, ast.Name) \
+                    and v.func.value.id == "self" and self.kinds.get(v.func.attr) == "method":
+                arms = []
+                for tag in self.method_tags:
+                    fd = self.methods[tag]
+                    ps = [a.arg for a in fd.args.args][1:]
+                    given = {}
+                    for p, a in zip(ps, v.args):
+                        given[p] = a
+                    for kw in v.keywords:
+                        if kw.arg not in ps or kw.arg in given:
+                            self.fail(v, "keyword of a dispatched call")
+                        given[kw.arg] = kw.value
+                    if set(given) != set(ps):
+                        self.fail(v, "dispatched call does not give every parameter")
+                    args = []
+                    for p in ps:
+                        if p == "makedirs":
+                            continue
+                        args.append(self.expr(given[p], env)[0])
+                    arms.append(f"| M{tag} => src_PyramidIO{tag} self {' '.join(args)}")
+                return f"match ({self.fld(v.func.attr)} self) with " + " ".join(arms) + " end"
+            t, k = self.expr(v, env)
+            return f"Some {t}"
+        if isinstance(s, ast.Assign) and len(s.targets) == 1:
+            tg = s.targets[0]
+            if isinstance(tg, ast.Name):
+                t, k = self.expr(s.value, env)
+                g = self.fresh(tg.id)
+                env2 = dict(env)
+                env2[tg.id] = (g, k)
+                return f"let {g} := {t} in " + self.block(rest, env2)
+            if isinstance(tg, ast.Attribute) and isinstance(tg.value, ast.Name) and tg.value.id == "self" and self.in_init:
+                if self.kinds[tg.attr] == "method":
+                    t = "M" + s.value.attr
+                else:
+                    t, k = self.expr(s.value, env)
+                    if k != "str":
+                        self.fail(s, "string field assigned something that is not a string")
+                g = self.fresh("self" + tg.attr)
+                saved = dict(self.init_fields)
+                self.init_fields[tg.attr] = g
+                r = f"let {g} := {t} in " + self.block(rest, env)
+                self.init_fields = saved
+                return r
+        if isinstance(s, ast.If):
+            # `if default_format is None:` -> the directory scan is an oracle
+            if self.in_init and isinstance(s.test, ast.Compare) and isinstance(s.test.left, ast.Name) \
+                    and len(s.test.ops) == 1 and isinstance(s.test.ops[0], ast.Is) \
+                    and isinstance(s.test.comparators[0], ast.Constant) and s.test.comparators[0].value is None and not s.orelse:
+                nm = s.test.left.id
+                if nm not in env or env[nm][1] != "ostr":
+                    self.fail(s, "`is None` test on something that is not an optional string")
+                for n in ast.walk(s):
+                    if isinstance(n, (ast.Assign, ast.AugAssign)):
+                        tgts = n.targets if isinstance(n, ast.Assign) else [n.target]
+                        for t in tgts:
+                            if not (isinstance(t, ast.Name) and t.id in (nm, "extension")):
+                                self.fail(n, "the format-guessing block assigns something other than the format")
+                    if isinstance(n, (ast.Return, ast.Raise)):
+                        self.fail(n, "the format-guessing block returns or raises")
+                if "base_dir" not in env or "tile_pattern" not in env:
+                    self.fail(s, "format guessing without base_dir / tile_pattern")
+                g = self.fresh(nm)
+                env2 = dict(env)
+                env2[nm] = (g, "str")
+                return (f"let {g} := match {env[nm][0]} with Some f => f | None => "
+                        f"src_guess_format {env['base_dir'][0]} {env['tile_pattern'][0]} end in " + self.block(rest, env2))
+            c, k = self.expr(s.test, env)
+            if k != "bool":
+                self.fail(s, "condition that is not a comparison")
+            return f"if {c} then ({self.block(list(s.body) + rest, env)}) else ({self.block(list(s.orelse) + rest, env)})"
+        self.fail(s, "statement outside the subset")
+
+    def method(self, name):
+        fd = self.methods[name]
+        self.node = fd
+        self.in_init = name == "__init__"
+        self.init_fields = {}
+        a = fd.args
+        if a.vararg or a.kwarg or a.kwonlyargs:
+            self.fail(fd, "signature outside the subset")
+        ps = [x.arg for x in a.args]
+        if ps[0] != "self":
+            self.fail(fd, "method without self")
+        ps = ps[1:]
+        defaults = dict(zip(ps[len(ps) - len(a.defaults):], a.defaults))
+        env, sig, extra = {}, [], []
+        for p in ps:
+            if p == "makedirs":
+                continue                      # only steers os.makedirs, which is dropped
+            d = defaults.get(p)
+            if p == "pos":
+                env[p] = (p, "pos"); sig.append(f"({p} : spos)")
+            elif d is not None and isinstance(d, ast.Constant) and d.value is None:
+                env[p] = (p, "ostr"); sig.append(f"({p} : option string)")
+            else:
+                env[p] = (p, "str"); sig.append(f"({p} : string)")
+                if d is not None:
+                    if not (isinstance(d, ast.Constant) and isinstance(d.value, str)):
+                        self.fail(fd, "default value outside the subset")
+                    extra.append(f"Definition src_PyramidIO_default_{p} : string := {self.lit(d.value)}.\n")
+        body = self.block(fd.body, env)
+        nm = "_init" if self.in_init else name if name.startswith("_") else "_" + name
+        slf = "" if self.in_init else "(self : spio) "
+        return "".join(extra) + f"Definition src_PyramidIO{nm} {slf}{' '.join(sig)} :=\n  {body}.\n"
+
+    def run(self):
+        out = ["Inductive src_method := " + " | ".join("M" + t for t in self.method_tags) + ".\n"]
+        out.append("Record spio := mkPIO { " + "; ".join(
+            f"{self.fld(f)} : {'src_method' if self.kinds[f] == 'method' else 'string'}" for f in self.fields) + " }.\n")
+        out.append("Section WithFileSystem.\n(* the directory scan that guesses the format when none is given: an oracle *)\n"
+                   "Variable src_guess_format : string -> string -> string.\n")
+        order = ["_tile_path_LsYsYX", "_tile_path_LXY", "tile_path", "get_path_scheme", "__init__"]
+        order = [t for t in self.method_tags if t not in order] + order
+        for m in order:
+            out.append(self.method(m))
+        out.append("End WithFileSystem.\n")
+        return "\n".join(out)
+
+
+PATH_HEADER = """(* GENERATED by harness/py2coq.py from {path} -- do not edit; regenerated on every run. *)
+From Coq Require Import ZArith String List Bool.
+From Toasty Require Import Model.SrcPrelude.
+Import ListNotations.
+Local Open Scope string_scope.
+
+"""
+
+
+def translate_paths(repo):
+    """Gallina text for the tile naming of class PyramidIO in <repo>/toasty/pyramid.py (raises Unsupported)."""
+    import os
+    t = PathTranslator(open(os.path.join(str(repo), "toasty", "pyramid.py")).read())
+    return PATH_HEADER.format(path="toasty/pyramid.py (class PyramidIO: tile naming)") + t.run()
+
+
 if __name__ == "__main__":
     import sys
     which = sys.argv[2] if len(sys.argv) > 2 else "pyramid"
-    fn = {"pyramid": translate_pyramid, "study": translate_study}[which]
+    fn = {"pyramid": translate_pyramid, "study": translate_study, "paths": translate_paths}[which]
     sys.stdout.write(fn(sys.argv[1] if len(sys.argv) > 1 else "/repo"))
